@@ -56,7 +56,8 @@ Proof.
       destruct (remove_cp_LI g _ _ _ _ (conj C1 L1) E1) as [_ H]. exact H.
     + (* prune after C08-8: not closing (a sub-interface goes without its port), LI by the generic lifting *)
       assert (E' : run (exec ex OPrune8 cs) g = (inl r, (g', tr))) by exact E.
-      exact (lift_exec g (LI g) (LI_del g) (LI_cp g) (fun l i j _ H => match H with end) ex OPrune8 cs r g' tr eq_refl E').
+      exact (lift_exec g (LI g) (LI_del g) (LI_cp g) (fun l i j _ H => match H with end) ex OPrune8 cs r g' tr eq_refl E').    + assert (E' : run (exec ex OPrune9 cs) g = (inl r, (g', tr))) by exact E.
+      exact (lift_exec g (LI g) (LI_del g) (LI_cp g) (fun l i j _ H => match H with end) ex OPrune9 cs r g' tr eq_refl E').
 Qed.
 
 (* a fresh look-up of a surviving service / port handle after the operation: the old interfaces that survive *)
